@@ -192,5 +192,6 @@ pub fn c04(tier: Tier, seed: u64) -> Prop {
         ],
         units,
         extra: no_extra(),
+        profiles: vec!["release"],
     }
 }
